@@ -34,6 +34,8 @@ def gen_run(index: int, vseed: int, pool: dict) -> dict:
     n = 2 if rng.random() < 0.7 else 3
     granularity = "opcode" if rng.random() < 0.2 else "line"
     warm = rng.random() < 0.3
+    if warm and rng.random() < 0.3:
+        warm = "heavy"  # plus ~220 distinct bank-code lookups: fills any bounded cache a change may have added
     threads: list[list] = [[] for _ in range(n)]
     targets: list[list] = [[] for _ in range(n)]
     r_mode = rng.random()
@@ -119,7 +121,7 @@ def gen_run(index: int, vseed: int, pool: dict) -> dict:
     }
 
 
-def sweep_pairs(pool: dict) -> list[dict]:
+def sweep_pairs(pool: dict, tier: str = "quick", vseed: int = 0) -> list[dict]:
     """Fixed list of sensitive op pairs for the quick tier: every DE method at algorithm level,
     methods used by a bank also at IBAN level, plus generic pairs sharing no algorithm object."""
     pairs: list[dict] = []
@@ -160,6 +162,31 @@ def sweep_pairs(pool: dict) -> list[dict]:
             pairs.append({"ops": [["iban", acc, {"validate_bban": True}],
                                   ["iban", rej, {"validate_bban": True}]],
                           "targets": [key, key], "label": f"{key} IBAN accept x reject"})
+    # bytecode-granularity sweeps of "the same call again" against another account of the same method
+    # (memo / last-result patterns tear inside one source line); a rotating subset in the quick tier
+    dkeys = sorted(pool["de_methods"])
+    chosen = dkeys if tier == "thorough" else [dkeys[(vseed * 7 + i * 5) % len(dkeys)] for i in range(6)]
+    for key in dict.fromkeys(chosen):
+        rows = pool["de_methods"][key]["accounts"]
+        acc = first(rows, lambda c: c.startswith("accept"))
+        rej = first(rows, lambda c: c.startswith("reject"))
+        if acc and rej:
+            pairs.append({"ops": [["algo_validate", key, [acc], ""], ["algo_validate", key, [rej], ""]],
+                          "targets": [key, key], "label": f"{key} validate twice x other (opcode)",
+                          "granularity": "opcode", "shape": "repeat"})
+    # fill-level sweeps: k distinct lookups before the threads start, k around powers of two - a bounded cache
+    # a change may have added is then exactly full, so that the eviction / clear path runs inside the race
+    many = pool["bank_keys"].get("many", [])
+    if len(many) > 40:
+        exps = range(5, 10) if tier == "thorough" else range(5, 9)
+        for m in exps:
+            for j in (0, 1):
+                k = (1 << m) - j
+                if k + 2 >= len(many):
+                    continue
+                pairs.append({"ops": [["bic_from_bank_code", *many[0]], ["bic_candidates", *many[k + 1]]],
+                              "targets": ["bank_index", "bank_index"], "label": f"cached key x new key after {k} distinct lookups",
+                              "cold": "all", "warm_lookups": k})
     # IBAN-level pairs across different banks / methods (shared lookup paths, no shared method object)
     keys = sorted(k for k in pool["de_ibans"] if pool["de_ibans"][k])
     for i, key in enumerate(keys):
@@ -179,7 +206,7 @@ def sweep_pairs(pool: dict) -> list[dict]:
     bk = pool["bank_keys"]
 
     def g(a, b, label):
-        pairs.append({"ops": [a, b], "targets": ["generic", "generic"], "label": label})
+        pairs.append({"ops": [a, b], "targets": ["generic", "generic"], "label": label, "cold": True})
 
     ccs = [c for c in pool["countries"] if vi[c]]
     for i in range(0, min(len(ccs) - 1, 40), 5):
@@ -222,21 +249,29 @@ def sweep_runs(pair_index: int, pair: dict, vseed: int, max_points: int) -> list
     (every point when the op has at most `max_points` of them, else an even sample)."""
     recs = []
     a, b = pair["ops"]
+    gran = pair.get("granularity", "line")
+    repeat = pair.get("shape") == "repeat"  # thread 0 makes the same call twice; the second one is swept
     for first_tid, (x, y) in enumerate(((a, b), (b, a))):
-        steps = runner.steps(x, "line")
-        stride = max(1, -(-steps // max_points))
+        if repeat and first_tid == 1:
+            break
+        one = runner.steps(x, gran)
+        lo, steps = (one + 1, 2 * one) if repeat else (1, one)
+        stride = max(1, -(-(steps - lo + 1) // max_points))
         offset = (pair_index + first_tid) % stride
-        for k in range(1 + offset, steps + 1, stride):
+        for k in range(lo + offset, steps + 1, stride):
             other = 1 - first_tid
             script = [[first_tid, k, "p"], [other, 0, "f"], [first_tid, 0, "f"]]
-            threads = [[a], [b]]
+            threads = [[a, a], [b]] if repeat else [[a], [b]]
+            tg = pair["targets"]
             recs.append({
                 "property": PROP, "engine": core.ENGINE_VERSION, "verif_seed": vseed,
                 "run_index": f"sweep-{pair_index}-{first_tid}-{k}", "run_seed": "n/a (sweep)",
                 "pythonhashseed": core.HASHSEED,
-                "config": {"threads": 2, "granularity": "line", "policy": ["script", script],
-                           "warm": False, "mode": "sweep", "label": pair["label"]},
-                "threads": threads, "targets": [[pair["targets"][0]], [pair["targets"][1]]],
+                "config": {"threads": 2, "granularity": gran, "policy": ["script", script],
+                           "warm": False, "mode": "sweep", "label": pair["label"],
+                           "cold": pair.get("cold") == "all" or (bool(pair.get("cold")) and k <= 40),
+                           "warm_lookups": pair.get("warm_lookups", 0)},
+                "threads": threads, "targets": [[tg[0], tg[0]], [tg[1]]] if repeat else [[tg[0]], [tg[1]]],
                 "policy_seed": 0,
             })
     return recs
@@ -252,6 +287,10 @@ def run_child(rec: dict, keep_events: bool = False) -> dict:
     simulated runs in the same process (sweep batches), then the run that is judged."""
     if rec["config"].get("warm"):
         runner.warm_up()
+    if rec["config"].get("warm") == "heavy":
+        runner.heavy_warm_up()
+    for cc, code in runner.POOL["bank_keys"].get("many", [])[: rec["config"].get("warm_lookups", 0)]:
+        ops.execute(["bic_candidates", cc, code])
     for pre in rec.get("prelude", ()):
         run_one(pre, False)
     return run_one(rec, keep_events)
@@ -291,12 +330,24 @@ def run_one(rec: dict, keep_events: bool = False) -> dict:
             s.log.add(tid, "outcome", core.jdump(out))
 
     ok = s.run(body, watchdog=30.0)
+    post: list = []
+    if ok and s.deadlock is None and not s.errors:
+        # after the concurrent episode every call, run alone again, must still give its solo answer
+        seen: set = set()
+        for t in range(n):
+            for op in threads[t]:
+                key = core.jdump(op)
+                if key not in seen:
+                    seen.add(key)
+                    out, _ = ops.execute(op, objs)
+                    post.append([op, out])
+                    s.log.add("post", key, core.jdump(out))
     res = {
         "finished": bool(ok), "errors": s.errors, "outcomes": outcomes, "schedule": s.schedule,
         "steps": s.steps, "switches": s.switches, "conflict_switches": s.conflict_switches,
         "switch_sites": s.switch_sites, "deadlock": s.deadlock, "capped": s.capped,
         "lock_acquires": s.lock_acquires, "lock_blocks": s.lock_blocks,
-        "event_digest": s.log.digest(), "interleaving": s.switch_log.digest()[:16],
+        "event_digest": s.log.digest(), "interleaving": s.switch_log.digest()[:16], "post": post,
     }
     if keep_events:
         res["events"] = s.log.events
@@ -329,6 +380,15 @@ def judge(rec: dict, res: dict) -> dict | None:
                         "op": op, "expected": want, "observed": got,
                         "detail": f"thread {t} op {core.jdump(op)[:200]} alone -> "
                                   f"{core.jdump(want)[:200]} but concurrently -> {core.jdump(got)[:200]}"}
+    for op, got in res.get("post", ()):
+        want = solo_outcome(rec, op)
+        if got != want:
+            tg = next((rec["targets"][t][j] for t, th in enumerate(rec["threads"]) for j, o in enumerate(th) if o == op), None)
+            return {"kind": "outcome-differs-after-concurrent-episode", "thread": 0, "op_index": 0,
+                    "signature": {"kind": "outcome-differs-after-concurrent-episode", "op_kind": op[0], "target": _family(tg)},
+                    "op": op, "expected": want, "observed": got,
+                    "detail": f"after the threads finished, {core.jdump(op)[:200]} run alone -> {core.jdump(got)[:200]} "
+                              f"instead of {core.jdump(want)[:200]} (state left behind by the interleaving)"}
     return None
 
 
@@ -382,7 +442,11 @@ def worker_task(task: dict) -> dict:
         recs = []
         st["skipped"] = 1
     if task["kind"] == "sweep":
-        batch_res = isolate.fork_call(run_batch_child, (recs,), timeout=600)
+        cold = [r for r in recs if r["config"].get("cold")]
+        recs = [r for r in recs if not r["config"].get("cold")]
+        for rec in cold:  # each in its own pristine fork: first-use initialisation is raced too
+            results.append(execute_record(rec))
+        batch_res = isolate.fork_call(run_batch_child, (recs,), timeout=600) if recs else []
         for i, (rec, res) in enumerate(zip(recs, batch_res)):
             viol = judge(rec, res)
             if viol is not None:
@@ -660,10 +724,10 @@ def main() -> int:
     runner.WARM_BATTERY[:] = runner.default_warm_battery(pool)
     nruns = args.runs if args.runs is not None else int(os.environ.get("VERIF_RUNS") or (4000 if args.tier == "quick" else 150_000))
     tasks = []
-    pairs = [] if args.no_sweep else sweep_pairs(pool)
+    pairs = [] if args.no_sweep else sweep_pairs(pool, args.tier, vseed)
     for i, pair in enumerate(pairs):
         tasks.append({"kind": "sweep", "pair_index": i, "pair": pair, "vseed": vseed, "digests": args.digests,
-                      "max_points": 60 if args.tier == "quick" else 100000})
+                      "max_points": (60 if pair.get("granularity") != "opcode" else 400) if args.tier == "quick" else 100000})
     for ch in runner.chunks(list(range(nruns)), 100 if nruns > 20000 else 25):
         tasks.append({"kind": "random", "indices": ch, "vseed": vseed, "digests": args.digests})
     deadline = runner.wall_cap(args.tier)
